@@ -12,7 +12,7 @@ namespace etl {
 /// also in wide string pointed to by str.
 ///
 /// https://en.cppreference.com/w/cpp/string/wide/wcspbrk
-[[nodiscard]] constexpr auto wcspbrk(wchar_t* dest, wchar_t* breakset) noexcept -> wchar_t*
+[[nodiscard]] constexpr auto wcspbrk(wchar_t* dest, wchar_t const* breakset) noexcept -> wchar_t*
 {
     return etl::detail::strpbrk_impl<wchar_t, etl::size_t>(dest, breakset);
 }
